@@ -91,6 +91,14 @@ class TemperedStrategy(EmceeStrategy):
         self.seed = seed
         self.walker_initial_pos = walker_initial_pos
         self.next_initial_dist = next_initial_dist
+        # keep every constructor argument, so that the strategy can be
+        # saved and rebuilt
+        self.nsamples = nsamples
+        self.min_pixels = min_pixels
+        self.npixels = npixels
+        self.stages = stages
+        self.stage_len = stage_len
+        self._next_stage_seed = seed
         self.stage_strategies = []
         if min_pixels is None:
             min_pixels = npixels/20
@@ -106,9 +114,9 @@ class TemperedStrategy(EmceeStrategy):
                           nsamples=nsamples,
                           npixels=int(round(npixels)),
                           parallel=self.parallel,
-                          seed=self.seed))
-        if self.seed is not None:
-            self.seed += 1
+                          seed=self._next_stage_seed))
+        if self._next_stage_seed is not None:
+            self._next_stage_seed += 1
 
     def sample(self, model, data):
         start_time = time.time()
